@@ -14,7 +14,11 @@ Inter(u, d) == IF u = <<>> THEN {d} ELSE IF d = <<>> THEN {u}
                ELSE {<<Head(u)>> \o x : x \in Inter(Tail(u), d)} \cup {<<Head(d)>> \o x : x \in Inter(u, Tail(d))}
 Scheds == UNION { Inter(Prog("c", a, s), Prog("t", b, t)) : a \in 0..N, b \in 0..N, s \in BOOLEAN, t \in BOOLEAN }
 \* pause: the tunnel stays silent for longer than the read-header limit before the schedule continues
-Cases == [sched : Scheds, early : BOOLEAN, tearly : BOOLEAN, pause : BOOLEAN]
+\* par: the two endpoints run their programs concurrently (each keeps its own order, the interleaving is the
+\* machine's) with blocks of a MiB and more, so that both copy directions move data at the same time
+Has(s, a) == \E i \in 1..Len(s) : s[i] = a
+Cases == { x \in [sched : Scheds, early : BOOLEAN, tearly : BOOLEAN, pause : BOOLEAN, par : BOOLEAN] :
+             x.par => Has(x.sched, "cw") /\ Has(x.sched, "tw") /\ ~x.pause }
 
 VARIABLE c
 Init == c \in (IF Sample = 0 THEN Cases ELSE RandomSubset(Sample, Cases))
